@@ -687,31 +687,32 @@ Proof.
   destruct (notify _) as [[a b] c]. destruct (dispose false c a). intros E; inversion E; reflexivity.
 Qed.
 
-(* a property of single steps that composes carries over to the hook-up step *)
+(* every step is a composition of single transitions (the hook-up step of several), whose allocation counts add up *)
 Lemma step_cases s x s' o : step s x = (s', o) ->
-  (step0 s x = (s', o) /\ match x with OHookUp _ _ _ _ _ => False | _ => True end) \/
-  (exists i l p r keep s1 o1, x = OHookUp i l p r keep /\ step0 s (OSpawn i l p r) = (s1, o1) /\
-     ((keep || negb (o_st o1 =? 0) = true /\ s' = s1 /\ o = o1) \/
-      (keep = false /\ o_st o1 = 0 /\ exists s2 o2, step0 s1 ODrop = (s2, o2) /\ s' = s2 /\
-         o = mkObs 0 0 0 (o_del o2) (o_ev o1 ++ o_ev o2)))).
+  exists l os, run0 s l = (s', os) /\ o_new o = osum o_new os /\ o_del o = osum o_del os.
 Proof.
-  intros E. destruct x; try (left; split; [exact E|exact I]).
-  right. cbn [step] in E. destruct (step0 s (OSpawn i limit pause retry)) as [s1 o1] eqn:E1.
-  exists i, limit, pause, retry, keep, s1, o1. split; [reflexivity|]. split; [exact E1|].
-  destruct (keep || negb (o_st o1 =? 0)) eqn:K.
-  - left. inversion E; subst. repeat split.
-  - right. apply orb_false_iff in K. destruct K as (K1 & K2). apply negb_false_iff, Z.eqb_eq in K2.
-    destruct (step0 s1 ODrop) as [s2 o2] eqn:E2. inversion E; subst s' o.
-    split; [exact K1|]. split; [exact K2|]. exists s2, o2. repeat split.
+  intros E.
+  assert (G : forall y, step0 s y = (s', o) -> exists l os, run0 s l = (s', os) /\ o_new o = osum o_new os /\ o_del o = osum o_del os).
+  { intros y E0. exists [y], [o]. cbn [run0 osum]. rewrite E0. repeat split; lia. }
+  destruct x; try (apply (G _ E)).
+  cbn [step] in E. destruct (step0 s (OSpawn i limit pause retry)) as [s1 o1] eqn:E1.
+  destruct (negb (o_st o1 =? 0)).
+  - inversion E; subst. apply (G _ E1).
+  - destruct (run0 s1 (hook_tail keep emits)) as [s2 os] eqn:E2. inversion E; subst s' o.
+    exists (OSpawn i limit pause retry :: hook_tail keep emits), (o1 :: os). cbn [run0]. rewrite E1, E2. repeat split.
+Qed.
+
+Lemma run0_balance l : forall s s' os, run0 s l = (s', os) -> ncb s' = ncb s + osum o_new os - osum o_del os.
+Proof.
+  induction l as [|x t IH]; intros s s' os E; cbn [run0] in E.
+  - inversion E; subst. cbn [osum]. lia.
+  - destruct (step0 s x) as [s1 o] eqn:E1. destruct (run0 s1 t) as [s2 os2] eqn:E2. inversion E; subst.
+    rewrite (IH _ _ _ E2), (step0_balance _ _ _ _ E1). cbn [osum]. lia.
 Qed.
 
 Lemma step_balance s x s' o : step s x = (s', o) -> ncb s' = ncb s + o_new o - o_del o.
 Proof.
-  intros E. destruct (step_cases _ _ _ _ E) as [(E0 & _)|(i & l & p & r & keep & s1 & o1 & -> & E1 & [(_ & -> & ->)|(_ & _ & s2 & o2 & E2 & -> & ->)])].
-  - exact (step0_balance _ _ _ _ E0).
-  - exact (step0_balance _ _ _ _ E1).
-  - rewrite (step0_balance _ _ _ _ E2), (step0_balance _ _ _ _ E1).
-    destruct (spawn_obs _ _ _ _ _ _ _ E1) as (N1 & D1). rewrite N1, D1, (drop_obs _ _ _ E2). cbn [o_new o_del]. lia.
+  intros E. destruct (step_cases _ _ _ _ E) as (l & os & R & N & D). rewrite N, D. exact (run0_balance _ _ _ _ R).
 Qed.
 
 Fixpoint sum_new (l : list obs) : Z := match l with [] => 0 | o :: t => o_new o + sum_new t end.
@@ -808,14 +809,18 @@ Proof.
     + inversion E; subst. contradiction.
 Qed.
 
-Lemma step_dead_ok s x s' o : step s x = (s', o) -> dead_ok s -> dead_ok s'.
+Lemma run0_dead_ok l : forall s s' os, run0 s l = (s', os) -> dead_ok s -> dead_ok s'.
 Proof.
-  intros E OK. destruct (step_cases _ _ _ _ E) as [(E0 & _)|(i & l & p & r & keep & s1 & o1 & -> & E1 & [(_ & -> & ->)|(_ & _ & s2 & o2 & E2 & -> & ->)])].
-  - exact (step0_dead_ok _ _ _ _ E0 OK).
-  - exact (step0_dead_ok _ _ _ _ E1 OK).
-  - exact (step0_dead_ok _ _ _ _ E2 (step0_dead_ok _ _ _ _ E1 OK)).
+  induction l as [|x t IH]; intros s s' os E OK; cbn [run0] in E.
+  - inversion E; subst. exact OK.
+  - destruct (step0 s x) as [s1 o] eqn:E1. destruct (run0 s1 t) as [s2 os2] eqn:E2. inversion E; subst.
+    exact (IH _ _ _ E2 (step0_dead_ok _ _ _ _ E1 OK)).
 Qed.
 
+Lemma step_dead_ok s x s' o : step s x = (s', o) -> dead_ok s -> dead_ok s'.
+Proof.
+  intros E OK. destruct (step_cases _ _ _ _ E) as (l & os & R & _). exact (run0_dead_ok _ _ _ _ R OK).
+Qed.
 
 Lemma run_dead_ok ops : forall s, dead_ok s -> dead_ok (snd (run_from s ops)).
 Proof.
@@ -1100,7 +1105,7 @@ Definition rinv (coro : bool) (s : st) : Prop :=
 Definition disc_op (coro : bool) (x : op) : Prop :=
   match x with
   | OEmit _ awaited _ => coro = false \/ awaited = true
-  | OEmitHold _ _ | OHookUp _ _ _ _ _ => False     (* nor keeps it in a variable; hook-up is a first op only *)
+  | OEmitHold _ _ | OHookUp _ _ _ _ _ _ => False     (* nor keeps it in a variable; hook-up is a first op only *)
   | _ => True
   end.
 
@@ -1597,12 +1602,17 @@ Proof.
     + apply M, K. apply cnt_in. lia.
 Qed.
 
+Lemma run0_uniq l : forall s s' os, run0 s l = (s', os) -> uniq s -> uniq s'.
+Proof.
+  induction l as [|x t IH]; intros s s' os E U; cbn [run0] in E.
+  - inversion E; subst. exact U.
+  - destruct (step0 s x) as [s1 o] eqn:E1. destruct (run0 s1 t) as [s2 os2] eqn:E2. inversion E; subst.
+    exact (IH _ _ _ E2 (step0_uniq _ _ _ _ E1 U)).
+Qed.
+
 Lemma step_uniq s x s' o : step s x = (s', o) -> uniq s -> uniq s'.
 Proof.
-  intros E U. destruct (step_cases _ _ _ _ E) as [(E0 & _)|(i & l & p & r & keep & s1 & o1 & -> & E1 & [(_ & -> & ->)|(_ & _ & s2 & o2 & E2 & -> & ->)])].
-  - exact (step0_uniq _ _ _ _ E0 U).
-  - exact (step0_uniq _ _ _ _ E1 U).
-  - exact (step0_uniq _ _ _ _ E2 (step0_uniq _ _ _ _ E1 U)).
+  intros E U. destruct (step_cases _ _ _ _ E) as (l & os & R & _). exact (run0_uniq _ _ _ _ R U).
 Qed.
 
 Lemma run_uniq ops : forall s, uniq s -> uniq (snd (run_from s ops)).
@@ -1660,6 +1670,67 @@ Proof.
       apply cnt_in. apply cnt_in in I. rewrite cnt_app, sp_order_cnt in I. pose proof (cbs_cos_cnt (chain s) i). lia.
     + intros (I & ->). exists i. split; [reflexivity|].
       apply cnt_in. apply cnt_in in I. rewrite cnt_app, sp_order_cnt. pose proof (cbs_cos_cnt (chain s) i). lia.
+Qed.
+
+(* ================= hook_up: what the registration function emits reaches the listener ================= *)
+Lemma emit_void s kind awaited v s' o : step s (OEmit kind awaited v) = (s', o) -> m_void s' = m_void s.
+Proof.
+  intros E. destruct (o_st o =? 0) eqn:O.
+  - apply Z.eqb_eq in O. destruct (emit_shape _ _ _ _ _ _ E O) as (A & _ & s2 & e1 & sp & e2 & W & Di & _).
+    destruct (walk_live _ _ _ (emit_ar s kind v [] A) _ _ _ W) as (SV & _). destruct (dispose_frame _ _ _ _ _ Di) as (SV2 & _).
+    rewrite (sv_void _ _ SV2), (sv_void _ _ SV). destruct (Nat.eqb kind 2); reflexivity.
+  - cbn [step step0] in E. destruct (negb (alive s) || _ || _ || _); [inversion E; reflexivity|].
+    destruct (notify _) as [[a b] c]. destruct (dispose awaited c a). inversion E; subst. discriminate.
+Qed.
+
+Lemma emit_accepts s v s' o : alive s = true -> step0 s (OEmit 0 false v) = (s', o) -> o_st o = 0.
+Proof.
+  intros A E. cbn [step0] in E. rewrite A in E. cbn [negb andb orb Nat.eqb Nat.ltb Nat.leb] in E. rewrite andb_false_r in E. cbn [orb] in E.
+  destruct (notify _) as [[a b] c]. destruct (dispose false c a). inversion E; reflexivity.
+Qed.
+
+Lemma hook_emits_received g vd : forall (js : list nat) s tl s' os,
+  rinv g false s -> held s = [] -> m_void s = vd -> alive s = true ->
+  run0 s (map (fun j => OEmit 0 false (900 + Z.of_nat j)) js ++ tl) = (s', os) ->
+  forall j, In j js -> In (g, if vd then 0 else 900 + Z.of_nat j) (delivs (flat_map o_ev os)).
+Proof.
+  induction js as [|a js IH]; intros s tl s' os R HN V A E j I; [destruct I|].
+  cbn [map app run0] in E. destruct (step0 s (OEmit 0 false (900 + Z.of_nat a))) as [s1 o] eqn:E1.
+  destruct (run0 s1 _) as [s2 os2] eqn:E2. inversion E; subst s' os. cbn [flat_map]. rewrite delivs_app. apply in_or_app.
+  assert (Es : step s (OEmit 0 false (900 + Z.of_nat a)) = (s1, o)) by exact E1.
+  destruct (step_rinv g false _ _ _ _ Es R HN (or_introl eq_refl)) as (R1 & P).
+  pose proof (emit_accepts _ _ _ _ A E1) as O.
+  destruct I as [<-|I].
+  - left. specialize (P O). unfold emitted in P. rewrite V in P. exact P.
+  - right. refine (IH s1 tl s2 os2 R1 (step_held_nil false _ _ _ _ Es HN (or_introl eq_refl)) _ _ E2 j I).
+    + rewrite (emit_void _ _ _ _ _ _ Es). exact V.
+    + destruct (emit_shape _ _ _ _ _ _ Es O) as (_ & _ & sa & ea & sp & eb & W & Di & _).
+      destruct (walk_live _ _ _ (emit_ar s 0 (900 + Z.of_nat a) [] A) _ _ _ W) as (SV & _). destruct (dispose_frame _ _ _ _ _ Di) as (SV2 & _).
+      rewrite (same_val_alive _ _ SV2), (same_val_alive _ _ SV). exact A.
+Qed.
+
+(* A listener hooked up from ordinary code with script `for(;;) co_await e;`: every value the registration function emits
+   through the collector it was handed (any number of them) is delivered to the listener inside the hook-up itself —
+   the coroutine is subscribed before the registration function runs. *)
+Lemma get_tab0 c v (g : nat) : get (tab (st0 c v)) g = None.
+Proof. unfold get. cbn [st0 tab]. destruct g; reflexivity. Qed.
+
+Theorem hook_up_receives : forall vd g r keep k s' o,
+  step (st0 false vd) (OHookUp g 0 false r keep k) = (s', o) ->
+  forall j, (1 <= j <= k)%nat -> In (g, if vd then 0 else 900 + Z.of_nat j) (delivs (o_ev o)).
+Proof.
+  intros vd g r keep k s' o E j J. cbn [step] in E.
+  destruct (step0 (st0 false vd) (OSpawn g 0 false r)) as [s1 o1] eqn:E1.
+  assert (Es : step (st0 false vd) (OSpawn g 0 false r) = (s1, o1)) by exact E1.
+  assert (N0 : not_ready (queue (st0 false vd))) by (intros ? []).
+  destruct (spawn_rinv g (st0 false vd) r s1 o1 eq_refl N0 (get_tab0 _ _ _) Es) as (R & EV).
+  cbn [step0] in E1. rewrite get_tab0 in E1. rewrite co_await_e_alive in E1 by reflexivity. inversion E1; subst s1 o1. clear E1.
+  cbn [o_st Z.eqb negb] in E.
+  destruct (run0 _ (hook_tail keep k)) as [s2 os] eqn:E2. inversion E; subst s' o. cbn [o_ev flat_map app].
+  change (delivs (EAwait g :: flat_map o_ev os)) with (delivs (flat_map o_ev os)).
+  unfold hook_tail in E2.
+  refine (hook_emits_received g vd (seq 1 k) _ _ s2 os R (step_held_nil false _ _ _ _ Es eq_refl I) eq_refl eq_refl E2 j _).
+  apply in_seq. lia.
 Qed.
 
 (* ================= a kept suspend point ================= *)
